@@ -125,7 +125,7 @@ func MapOrderNondet(on bool) {}
 func Guard(ptr any, lock any, mode int, name string) {}
 
 // Held: 0 = not held, 1 = read-locked, 2 = write-locked (symbolic executor only).
-func Held(lock any) int { return 2 }
+func Held(lock any) int { return 0 }
 
 func SetFaultBudget(n int) { faultBudget = n }
 
